@@ -42,6 +42,63 @@ OaatOk(e)  == e.v = Oaat64(e.b) \/ e.v = Oaat32(e.b)
 WrapOk(e)  == /\ e.a = HashString(e.b, NAME_A) /\ e.bb = HashString(e.b, NAME_B) /\ e.off = HashString(e.b, TABLE_OFFSET)
               /\ LET h == HetHash(e.b, e.bits) IN e.file = h.file /\ e.name1 = h.name1
 
+\* ---- round 4 ---------------------------------------------------------------------------------
+\* het_hash at every width 1..64 (one lookup3 evaluation per name, the pair derived per width)
+HetWBad(e) == LET full == HetFullHash(e.b) IN
+              {j \in 1..Len(e.r) : LET h == HetOfFull(full, e.r[j][1]) IN
+                                   e.r[j][2] # h.file \/ (h.defined /\ e.r[j][3] # h.name1)}
+HetWWhy(e) == LET bad == HetWBad(e) IN
+              IF bad = {} THEN "" ELSE "pair # lookup3 at width " \o ToString(e.r[CHOOSE j \in bad : \A q \in bad : j <= q][1])
+
+\* extended-table body: what the builder-side cipher stored equals the reference; HetTable::read / BetTable::read
+\* give back exactly the body that was stored (header, hash/index or flag/entry/hash arrays), for every length
+TblWhy(e) == IF e.keycls = "table" /\ e.key # (IF e.which = "het" THEN HetTableKey ELSE BetTableKey) THEN "table key # MPQ hash of its name"
+             ELSE IF e.st # TblStore(e.pre, e.key) THEN "stored table # reference encryption"
+             ELSE IF TblLoad(e.st, e.key) # e.pre THEN "reference decryption does not invert"
+             ELSE IF e.res # "ok" THEN "read failed: " \o e.res
+             ELSE IF e.obs # e.plain THEN "body read back differs, len mod 4 = " \o ToString(e.r)
+             ELSE ""
+
+\* encrypted file: final key from the logged name / position / size; the stored image equals the reference
+\* image unit by unit (raw sectors) or has a sane offset table under key - 1 (compressed sectors); reading
+\* through Archive::read_file gives the plaintext back
+EncFileKey(e) == FileFinalKey(e.b, e.pos, WFromNat(e.size), e.fix)
+EncFileWhy(e) ==
+  LET key == EncFileKey(e)
+      n   == FileSectorCount(e.size, e.ss)
+  IN  IF ~(e.res \in {"ok", "panic", "hang"} \/ SubSeq(e.res, 1, 4) = "err:") THEN "not produced: " \o e.res
+      ELSE IF ~e.enc \/ e.fixf # e.fix THEN "not stored encrypted as requested"
+      ELSE IF e.raw /\ e.st # FileStoreRaw(e.p, key, e.ss) THEN "stored units # reference encryption"
+      ELSE IF ~e.raw /\ e.size > e.ss /\ ~FileOffsetsSane(FileLoadOffsets(e.st, key, n), n, e.stlen) THEN "offset table not under key-1"
+      ELSE IF e.res # "ok" THEN "read_file failed: " \o e.res
+      ELSE IF e.gtok # e.ptok \/ e.glen # e.size THEN "read_file # plaintext"
+      ELSE ""
+\* the zero-unit class asked for by the case is the one realised (coverage of the generator's dimension)
+EncFileClassOk(e) ==
+  LET zs == FileZeroUnits(EncFileKey(e), FileSectorCount(e.size, e.ss))
+      n  == FileSectorCount(e.size, e.ss)
+  IN  CASE e.zero = "none" -> zs = {}
+        [] e.zero = "ot"   -> zs = {-1}
+        [] e.zero = "s0"   -> zs = {0}
+        [] e.zero = "s1"   -> zs = {1}
+        [] e.zero = "last" -> zs = {n - 1}
+        [] OTHER -> FALSE
+
+\* DRIFT only: a data unit whose key is 0 is left in the clear by the library; the published cipher would encrypt it
+EncFileZeroClear(e) ==
+  LET n  == FileSectorCount(e.size, e.ss)
+      zs == {u \in FileZeroUnits(EncFileKey(e), n) : u >= 0}
+  IN  e.raw /\ e.res = "ok" /\ \E u \in zs :
+        LET sec == FileSector(e.p, e.ss, u)
+            lo  == IF n > 1 THEN 4 * (n + 1) + e.ss * u ELSE 0
+        IN  Len(sec) >= 4 /\ SubSeq(e.st, lo + 1, lo + Len(sec)) # EncryptBytesRef(sec, WZero)
+
+Why(e) == CASE e.ev = "HetW"    -> HetWWhy(e)
+            [] e.ev = "Tbl"     -> TblWhy(e)
+            [] e.ev = "EncFile" -> EncFileWhy(e)
+            [] OTHER            -> ""
+IsR4(e) == e.ev \in {"HetW", "Tbl", "EncFile"}
+
 Ok(e) == CASE e.ev = "Table"    -> TableOk(e)
            [] e.ev = "Fold"     -> FoldOk(e)
            [] e.ev = "Hash"     -> HashOk(e)
@@ -53,13 +110,18 @@ Ok(e) == CASE e.ev = "Table"    -> TableOk(e)
            [] e.ev = "FileKey"  -> e.v = FileKey(e.b)
            [] e.ev = "EncBig"   -> EncBigOk(e)
            [] e.ev = "HashB"    -> HashOk(e)          \* byte-level / SIMD entry points: same reference
+           [] IsR4(e)           -> Why(e) = ""
            [] e.ev = "Reset"    -> TRUE
            [] OTHER             -> Assert(FALSE, <<"unknown event", e>>)
 
 Init == tl = 1
 Next == /\ tl <= Len(Rec)
         /\ tl' = tl + 1
-        /\ IF Ok(Rec[tl]) THEN TRUE ELSE PrintT(<<"BAD", tl, Rec[tl].ev>>)
+        /\ IF Ok(Rec[tl]) THEN TRUE
+           ELSE IF IsR4(Rec[tl]) THEN PrintT(<<"BAD", tl, Rec[tl].ev \o ": " \o Why(Rec[tl])>>)
+           ELSE PrintT(<<"BAD", tl, Rec[tl].ev>>)
+        /\ IF Rec[tl].ev = "EncFile" /\ ~EncFileClassOk(Rec[tl]) THEN PrintT(<<"DRIFT", tl, "EncFile: zero-unit class not realised">>) ELSE TRUE
+        /\ IF Rec[tl].ev = "EncFile" /\ EncFileZeroClear(Rec[tl]) THEN PrintT(<<"DRIFT", tl, "EncFile: unit with key 0 stored in the clear">>) ELSE TRUE
 
 Accepted == LET d == TLCGet("stats").diameter IN
             IF d - 1 = Len(Rec) THEN PrintT(<<"CONSUMED", Len(Rec)>>) ELSE Print(<<"TRACE_STUCK_AT", d>>, FALSE)
